@@ -388,6 +388,17 @@ structure CheckAuthExt where
   getAuthInfo : Str → authInfo × Option Err
   expired : authInfo → Bool
 
+/-! ### cmd/keymasterd `getUsernameIfIPRestricted` -/
+
+/-- externals: `certgen.VerifyIPRestrictedX509CertIP` of the leaf certificate and the connection's remote address
+(translated and proved separately: `c11_go_verify_true`), the fingerprint of the certificate's key, the automation-user
+test (translated separately), the revocation check -/
+structure IPUserExt where
+  verifyIP : Bool × Option Err
+  fingerprint : Str × Option Err
+  isAutomationUser : Str → Bool × Option Err
+  revocation : Bool × Bool × Option Err
+
 /-! ### cmd/keymasterd `consumeLoginChallenge` -/
 
 /-- `localUserData`: the pending challenge of a user; the two challenge pointers are compared by identity (numbers
